@@ -28,8 +28,10 @@ META = {
             "flags (algebra of nested inv/reval); best_chain_never_invalid for every operation of both trees incl. the intermediate "
             "state inside invalidateSubtree; the flag invariant and the non-failed tip are preserved by arbitrary op lists. "
             "The tie to the code is the per-step comparison with AltBlockTree / BlockTree<BtcBlock> (exhaustive over tree shapes x "
-            "op sequences, random histories) and the direct oracle of harness/h_tree.cpp evaluated on the implementation around "
-            "every inv/reval",
+            "op sequences, random histories), the direct oracle of harness/h_tree.cpp evaluated on the implementation around "
+            "every inv/reval, and handlers on the library's own notification points (onBlockValidityChanged, onBeforeOverrideTip "
+            "of the ALT, VBK, BTC and standalone PoW trees) that walk the best chain INSIDE every operation and report a failed or "
+            "removed block on it (the intermediate state of C08_best_chain_inside_invalidate tied to the code)",
     "note": "Trusted: Coq kernel, extraction, OCaml driver, C++ harness; the preorder traversals are modelled as one oldest-first "
             "pass (validated by the correspondence run). Stale FAILED_CHILD (removeSubtree drops FAILED_POP but keeps the "
             "descendants' FAILED_CHILD) is code behaviour: restoration theorems and the restoration oracle assume its absence "
